@@ -116,6 +116,14 @@ def tup(el):
     return ', '.join(el) + (',' if len(el) == 1 else '')
 
 
+def _rest_pick(rng, n):
+    """MatchMapping items whose last one is the `**rest` item (it is element len-1 of `_all`)"""
+    p = ['1: a', "'k': b", '2: [c]', 'd.e: _', '3: f']
+    rng.shuffle(p)
+    n = max(1, min(n, len(p)))
+    return p[:n - 1] + ['**r'], p[n - 1:]
+
+
 def families():
     F = []
     add = F.append
@@ -219,6 +227,9 @@ def families():
             lambda el: '{' + ', '.join(el) + '}', lambda e: '{' + e + '}', 0, default=True))
     add(Fam('MatchMapping', '_all', lambda el: 'match x:\n    case {' + ', '.join(el) + '}: pass', pat,
             ['1: a', "'k': b", '2: [c]', 'd.e: _', '3: f'], lambda el: '{' + ', '.join(el) + '}', lambda e: '{' + e + '}', 0, default=True))
+    add(Fam('MatchMapping', '_all', lambda el: 'match x:\n    case {' + ', '.join(el) + '}: pass', pat,
+            ['1: a', "'k': b", '2: [c]', 'd.e: _', '3: f', '**r'], lambda el: '{' + ', '.join(el) + '}', lambda e: '{' + e + '}', 1, tag='rest',
+            pick=_rest_pick))
     add(Fam('Compare', '_all', None, BV, ['a', 'b', 'c.d', 'e()', '1', 'f[g]'], None, str, 2, default=True, blank_ops=True))
     argf = lambda t: t.body[0].args
     add(Fam('arguments', '_all', _fmt('def f({X}): pass'), argf, ['a', 'b', 'c: int', 'd', 'e'], None, None, 0, default=True, tag='plain'))
@@ -369,6 +380,10 @@ def _entries(fam, n, a, b, s, e, new, rng, conv=None, sfx='', so=False, with_sin
             E.append(('view.prextend', lambda nd: view(nd).prextend(code, one=so)))
         if (s, e) == (0, n):
             E.append(('attr=', lambda nd: setattr(nd, field, code)))
+        if e - s == 1 and fam.tag != 'mixed' and not fam.blank_ops and not bare:
+            # FST.replace(code, one=False) on the element itself: the element is replaced by the slice
+            i_ = rng.choice([s, s - n])
+            E.append(('elem.replace(one=False)', lambda nd: _elem(view(nd), i_).replace(code, one=so)))
         if k == 1 and fam.single is not None and with_single and not bare:
             one = conv(fam.single(new[0]))
             E.append(('put_slice(one=True)', lambda nd: nd.put_slice(one, a, b, field, one=True)))
@@ -449,8 +464,8 @@ def run_family_case(arg):
             new = new[:1]
             k = 1
         want = old[:s] + new + old[e:]
-        if len(want) < fam.minlen or (k == 0 and s == e):
-            continue
+        if len(want) < fam.minlen or (k == 0 and s == e and rng.random() < 0.5):
+            continue        # (deleting an empty range is a no-op request: kept half of the time)
         a = _raw_for(rng, n, s, True)
         b = _raw_for(rng, n, e, True)
         if _py_bounds(n, a, b) != (s, e):
@@ -564,9 +579,9 @@ def run_form_product_case(fi):
     for s_, e_ in reqs:
         if s_ > n or e_ > n:
             continue
-        for new in news:
+        for new in news + [[]]:
             want = old[:s_] + new + old[e_:]
-            if len(want) < fam.minlen or not new:
+            if len(want) < fam.minlen:
                 continue
             try:
                 src = render(old)
@@ -578,6 +593,9 @@ def run_form_product_case(fi):
             base = {'fam': fam.name, 'tag': fam.tag, 'src': src, 'a': a, 'b': b, 'new': new, 'n': n, 'k': len(new), 'layout': False,
                     'want': want, 'product': True}
             E = []
+            if not new:
+                out += _exec_entries(fam, src, exp, _entries(fam, n, a, b, s_, e_, new, rng), base)
+                continue
             for so in (False, None):
                 E += _entries(fam, n, a, b, s_, e_, new, rng, so=so, with_single=so is False)
                 E += _entries(fam, n, a, b, s_, e_, new, rng, conv=_lines, sfx='[lines]', so=so, with_single=so is False)
@@ -673,7 +691,7 @@ def run_name_case(arg):
         for q in queries:
             top = q.split('.')[0]
             idx = next((i for i in range(lo, hi) if Lnames[i] == top), None)
-            for op in ('get', 'at', 'set', 'del'):
+            for op in ('get', 'at', 'atv', 'set', 'del'):
                 rec = {'fam': f'{kind}.{field}', 'tag': 'name' + ('+docstr' if doc else ''), 'op': f'view[name] {op}', 'sigop': f'name-{op}',
                        'src': src, 'a': w0, 'b': w1, 'new': [q], 'layout': False, 'name_args': [ci, field, doc, shape]}
                 # expected
@@ -707,6 +725,8 @@ def run_name_case(arg):
                         r = v[q]
                     elif op == 'at':
                         r = v.at(q)
+                    elif op == 'atv':
+                        r = v.at(q, True)
                     elif op == 'set':
                         v[q] = 'zz = 1'
                     else:
@@ -714,6 +734,13 @@ def run_name_case(arg):
                     if expect == 'IndexError':
                         rec['fail'] = 'no-IndexError'
                         rec['detail'] = f'name {q!r} is not defined inside the window [{lo}:{hi}] but the operation was carried out'
+                    elif op == 'atv':
+                        want = ast.dump(ast.parse(target).body[0])
+                        shown = [ast.dump(r[i].a) for i in range(len(r))]
+                        if shown != [want] or r.stop - r.start != 1 or not r.is_one or ('.' not in q and r.start != idx):
+                            rec['fail'] = 'wrong-element'
+                            rec['detail'] = (f'at({q!r}, True) gave a view [{r.start}:{r.stop}] is_one={r.is_one} showing {str(shown)[:160]}; '
+                                             f'expected the singleton view of {want[:100]}' + ('' if '.' in q else f' at [{idx}:{idx + 1}]'))
                     elif op in ('get', 'at'):
                         got = ast.dump(r.a)
                         want = ast.dump(ast.parse(target).body[0])
@@ -844,6 +871,41 @@ def run_arglike_field_case(arg):
             continue
         for name in _arglike_ops(s, e, k):
             out.append(_arglike_exec(kind, field, src, name, a, b, s, e, n, new, exp))
+    return out
+
+
+_ARGLIKE_SHAPES = [['a', 'k=1', '*b', 'j=2'], ['k=1', '*s', 'j=2'], ['a', 'b', 'k=1', '*s', '*t', 'j=2', '**d'], ['a', '*s', 'k=1', '**d', 'j=2'],
+                   ['k=1', 'j=2', '*s', '*t'], ['a', 'k=1', '*s', 'm=n', '*t', 'q=()']]
+
+
+def run_arglike_product_case(arg):
+    """deterministic: fixed interleaved argument shapes x (args|bases, keywords) x every empty / one-element range x new
+    elements of each admissible kind x one-line and multi-line layout x every entry point"""
+    kind, si = arg
+    old = _ARGLIKE_SHAPES[si]
+    out = []
+    for inner in (', '.join(old), _mixed_join(old)):
+        src = ('f(' + inner + ')') if kind == 'Call' else ('class C(' + inner + '): pass')
+        find = BV if kind == 'Call' else B0
+        ef = 'args' if kind == 'Call' else 'bases'
+        for field in (ef, 'keywords'):
+            n = len(getattr(find(ast.parse(src)), field))
+            news = [['x'], ['*x'], ['x', '*y']] if field != 'keywords' else [['x=9'], ['**x'], ['x=9', 'y=8']]
+            for s in range(n + 1):
+                for e in (s, s + 1):
+                    if e > n:
+                        continue
+                    for new in news + ([[]] if e > s else []):
+                        exp_tree = ast.parse(src)
+                        L = getattr(find(exp_tree), field)
+                        if new:
+                            c = ast.parse('f(' + ', '.join(new) + ')').body[0].value
+                            L[s:e] = c.args if field != 'keywords' else c.keywords
+                        else:
+                            del L[s:e]
+                        exp = ast.dump(exp_tree)
+                        for name in _arglike_ops(s, e, len(new)):
+                            out.append(_arglike_exec(kind, field, src, name, s, e, s, e, n, new, exp))
     return out
 
 
@@ -1165,6 +1227,189 @@ def _view_history(fam, old, rest, w0, w1, hist):
     return rec if done else None
 
 
+def _first_list_dumps(a):
+    for _, v in ast.iter_fields(a):
+        if isinstance(v, list):
+            return [ast.dump(x) if isinstance(x, ast.AST) else repr(x) for x in v]
+    return None
+
+
+def run_view_query_case(arg):
+    """Deterministic: every window of a small field x every int index (negative, out of range) through the READ and auxiliary
+    forms of the view API: view[i], view.at(i), view.at(i, True) (singleton views: bounds, is_one, item), view[a:b] bounds,
+    len / start / stop / start_and_stop, has_rest, copy() and cut() of windows and of singleton views (returned elements, tree
+    afterwards, view bounds afterwards), replace / remove through a singleton view.  Oracle: Python list / range / slice."""
+    fi, n = arg
+    fam = FAMILIES[fi]
+    out = []
+    if fam.pick:
+        old, rest = fam.pick(random.Random(11), n)
+        n = len(old)
+    else:
+        old, rest = fam.pool[:n], fam.pool[n:]
+    src = fam.render(old)
+    try:
+        base_tree = ast.parse(src)
+    except SyntaxError:
+        return out
+    simple = fam.field in ('elts', 'body', '_body', '_args', '_bases', 'targets') or fam.kind in ('Global', 'Nonlocal')
+    names = fam.kind in ('Global', 'Nonlocal')
+    multinode = fam.field in ('_all', '_attrs') and fam.kind != 'Compare'
+    elems = None
+    if simple and not names:
+        elems = [ast.dump(x) for x in _velems(fam, base_tree)]
+    elif names:
+        elems = list(old)
+    has_rest_elem = fam.tag == 'rest'
+
+    def rec_(op, w0, w1, extra):
+        return {'fam': fam.name, 'tag': fam.tag, 'op': op, 'sigop': op.split('(')[0], 'src': src, 'a': w0, 'b': w1, 'new': extra, 'layout': False,
+                'query_args': [fi, n]}
+
+    def fresh(w0, w1):
+        root = _fst(src)
+        node = fam.find(root.a).f
+        v = getattr(node, fam.field)
+        if w0 is not None:
+            v = v[w0:w1]
+        return root, node, v
+
+    def show(x):
+        if isinstance(x, str) or x is None:
+            return x
+        if getattr(x, 'is_FST', False):
+            return ast.dump(x.a)
+        return ('view', x.start, x.stop)
+
+    wins = [(None, None)] + [(a, b) for a in range(n + 1) for b in range(a, n + 1)]
+    for w0, w1 in wins:
+        lo, hi = (0, n) if w0 is None else (w0, w1)
+        m = hi - lo
+        # ---- bounds
+        r = rec_('view bounds', w0, w1, None)
+        try:
+            root, node, v = fresh(w0, w1)
+            got = (len(v), v.start, v.stop, tuple(v.start_and_stop))
+            if got != (m, lo, hi, (lo, hi)):
+                r['fail'], r['detail'] = 'view-window', f'len/start/stop/start_and_stop = {got}, a Python list window has {(m, lo, hi, (lo, hi))}'
+            if has_rest_elem and m > 0 and v.has_rest != (hi == n):
+                r['fail'], r['detail'] = 'has_rest', f'has_rest = {v.has_rest} for window [{lo}:{hi}] of {n} items, the last one being **rest'
+        except Exception as ex:
+            r['fail'], r['detail'] = 'raised:' + type(ex).__name__, str(ex)[:200]
+        out.append(r)
+        # ---- single int index forms
+        for i in range(-m - 2, m + 2):
+            ok = -m <= i < m
+            j = lo + (i + m if i < 0 else i)
+            for form in ('[i]', 'at(i)', 'at(i, True)'):
+                r = rec_(f'view{form}', w0, w1, [i])
+                try:
+                    root, node, v = fresh(w0, w1)
+                    x = v[i] if form == '[i]' else v.at(i) if form == 'at(i)' else v.at(i, True)
+                    if not ok:
+                        r['fail'], r['detail'] = 'no-IndexError', f'index {i} on a window of {m} items returned {show(x)!r}'
+                    else:
+                        sx = show(x)
+                        if form == 'at(i, True)' or (multinode or (names and form != '[i]')):
+                            want = ('view', j, j + 1)
+                            if sx != want or not x.is_one:
+                                r['fail'], r['detail'] = 'wrong-element', f'singleton view {sx} is_one={getattr(x, "is_one", None)}, expected {want}'
+                        elif elems is not None and sx != elems[j]:
+                            r['fail'], r['detail'] = 'wrong-element', f'returned {str(sx)[:100]} instead of element {j}: {elems[j][:100]}'
+                except IndexError as ex:
+                    if ok:
+                        r['fail'], r['detail'] = 'raised:IndexError', str(ex)[:100]
+                except Exception as ex:
+                    r['fail'], r['detail'] = 'raised:' + type(ex).__name__, str(ex)[:200]
+                out.append(r)
+            # edits through a singleton view
+            if ok and fam.single is not None and rest:
+                for op in ('one.replace', 'one.remove', 'one.cut', 'one.copy'):
+                    if op in ('one.remove', 'one.cut') and n - 1 < max(fam.minlen, 1 if fam.minlen else 0):
+                        continue
+                    r = rec_(op, w0, w1, [i])
+                    want = old[:j] + ([rest[0]] if op == 'one.replace' else []) + old[j + 1:] if op != 'one.copy' else old
+                    try:
+                        exp = _dump(ast.parse(fam.render(want)), fam)
+                    except SyntaxError:
+                        continue
+                    try:
+                        root, node, v = fresh(w0, w1)
+                        one = v.at(i, True)
+                        ret = (one.replace(fam.single(rest[0])) if op == 'one.replace' else one.remove() if op == 'one.remove'
+                               else one.cut() if op == 'one.cut' else one.copy())
+                        got = _dump(root.a, fam)
+                        if got != exp:
+                            r['fail'], r['detail'] = 'structure', _first_diff(got, exp)
+                        elif op in ('one.cut', 'one.copy') and elems is not None and not names and getattr(ret, 'is_FST', False):
+                            if ast.dump(ret.a) != elems[j] and (_first_list_dumps(ret.a) or [None]) != [elems[j]]:
+                                r['fail'], r['detail'] = 'wrong-element', f'{op} returned {ast.dump(ret.a)[:120]} instead of {elems[j][:120]}'
+                    except Exception as ex:
+                        if type(ex).__name__ in ('NodeError', 'ValueError') and fam.tag == 'mixed':
+                            continue
+                        r['fail'], r['detail'] = 'raised:' + type(ex).__name__, str(ex)[:200]
+                    out.append(r)
+        # ---- sub-slices
+        for a in (None, 0, 1, -1, m, m + 2, -m - 1):
+            for b in (None, 0, 1, -1, m, m + 2):
+                s_, e_, _ = slice(a, b).indices(m)
+                r = rec_('view[a:b] bounds', w0, w1, [a, b])
+                try:
+                    root, node, v = fresh(w0, w1)
+                    sub = v[a:b]
+                    if s_ > e_:
+                        r['fail'], r['detail'] = 'no-IndexError', f'[{a}:{b}] on {m} items has start > stop but gave {show(sub)}'
+                    elif (sub.start, sub.stop, len(sub)) != (lo + s_, lo + e_, e_ - s_):
+                        r['fail'], r['detail'] = 'view-window', f'view[{a}:{b}] = [{sub.start}:{sub.stop}] len {len(sub)}, Python: [{lo + s_}:{lo + e_}]'
+                except IndexError:
+                    if s_ <= e_:
+                        r['fail'], r['detail'] = 'raised:IndexError', f'[{a}:{b}] on {m} items'
+                except Exception as ex:
+                    r['fail'], r['detail'] = 'raised:' + type(ex).__name__, str(ex)[:200]
+                out.append(r)
+        # ---- copy / cut of the window
+        if m and elems is not None and not names:
+            for op in ('copy', 'cut'):
+                if op == 'cut' and n - m < max(fam.minlen, 1 if fam.minlen else 0):
+                    continue
+                want = old if op == 'copy' else old[:lo] + old[hi:]
+                try:
+                    exp = _dump(ast.parse(fam.render(want)), fam)
+                except SyntaxError:
+                    continue
+                r = rec_(f'view.{op}', w0, w1, None)
+                try:
+                    root, node, v = fresh(w0, w1)
+                    ret = v.copy() if op == 'copy' else v.cut()
+                    got = _dump(root.a, fam)
+                    rd = _first_list_dumps(ret.a)
+                    if got != exp:
+                        r['fail'], r['detail'] = 'structure', _first_diff(got, exp)
+                    elif rd != elems[lo:hi]:
+                        r['fail'], r['detail'] = 'wrong-element', f'{op} returned {str(rd)[:160]} instead of elements [{lo}:{hi}]'
+                    elif op == 'cut' and (len(v), v.start) != (0 if w0 is not None else n - m, lo):
+                        r['fail'], r['detail'] = 'view-window', f'after cut the view is [{v.start}:{v.stop}]'
+                except Exception as ex:
+                    if type(ex).__name__ in ('NodeError', 'ValueError') and fam.tag == 'mixed':
+                        continue
+                    r['fail'], r['detail'] = 'raised:' + type(ex).__name__, str(ex)[:200]
+                out.append(r)
+    return out
+
+
+def view_query_items(full):
+    keys = [('List.elts', ''), ('Module.body', ''), ('FunctionDef._body', 'docstr'), ('Dict._all', ''), ('Global.names', ''),
+            ('arguments._all', 'plain'), ('MatchMapping._all', 'rest'), ('Call._args', 'mixed'), ('Tuple.elts', ''),
+            ('MatchClass._attrs', 'pos'), ('Compare._all', '')]
+    items = []
+    for i, f in enumerate(FAMILIES):
+        if (f.name, f.tag) in keys:
+            for n in ((3, 4) if full else (3,)):
+                if n <= len(f.pool) - 1:
+                    items.append((i, n))
+    return items
+
+
 def _velems(fam, tree):
     """elements of the (possibly virtual) field on a CPython tree, in source order, computed without pfst"""
     node = fam.find(tree)
@@ -1223,7 +1468,7 @@ def view_product_items(full):
         fis += [i for i, f in enumerate(FAMILIES) if (f.name, f.tag) in (('Module.body', ''), ('Call._args', 'pos'))]
     for fi in fis:
         n = min(5, len(FAMILIES[fi].pool) - 3)
-        wins = [(1, 4), (0, 3), (2, n), (1, 2), (2, 2), (None, None)] if not full else \
+        wins = [(1, 4), (0, 3), (2, n), (1, 2), (2, 2), (0, 0), (0, 1), (None, None)] if not full else \
             [(None, None)] + [(a, b) for a in range(n + 1) for b in range(a, n + 1)]
         for w0, w1 in wins:
             for i1 in range(len(VIEW_OPS)):
